@@ -44,7 +44,7 @@ pub mod ext { pub mod miner {
                     && final(rt).sends@[1].value == final(rt).sends@[0].value)
             && (final(rt).sends@.len() == 1 ==> final(rt).sends@[0].ok),
         // the call is restricted to the system actor
-        r.is_ok() ==> old(rt).msg.caller == SYSTEM_ACTOR_ADDR,
+        /*C11*/ r.is_ok() ==> old(rt).msg.caller == SYSTEM_ACTOR_ADDR && final(rt).validated@.is_some(),
         r.is_ok() ==> final(rt).balance@ >= 0,
 //@ end
 
